@@ -37,7 +37,7 @@ pub fn exec(s: &mut CrdtSession, toks: &[&str], enc: TextEncoding) -> Vec<String
             let d = s.replicas.get(toks[1]).expect("replica");
             let text = dump_doc(d);
             // inside an open transaction the model also reports local = remote and undo = identity
-            let tail = if d.pending_ops() > 0 { " lr=ok rb=ok" } else { "" };
+            let tail = if d.pending_ops() > 0 { " lr=ok rb=ok lp=ok" } else { "" };
             let mut res = vec![format!("{} idx=ok{}", text, tail)];
             // direct oracle: the index columns rebuilt from scratch by load() equal the maintained ones
             let bytes = d.clone().save_with_options(automerge::SaveOptions { deflate: false, retain_orphans: false });
